@@ -476,7 +476,7 @@ pub fn suites() -> Vec<Suite> {
         head_len: 160,
         op_len: 0,
         max_ops: 0,
-        quick_cases: 1_500_000,
+        quick_cases: 4_000_000,
         thorough_cases: 60_000_000,
         run,
         direct: Some(direct),
